@@ -1,4 +1,4 @@
-SPECIFICATION GSpec
+SPECIFICATION Spec
 CONSTANTS
   Names = {"x"}
   Vals = {"a"}
@@ -7,10 +7,8 @@ CONSTANTS
   Thens = {"none", "assign", "export", "ro"}
 INVARIANT TypeOK
 INVARIANT ProjectionFaithful
+INVARIANT AbstractionSound
 INVARIANT EnvExact
 INVARIANT ScopedOpsAreLocal
-INVARIANT PopRestores
-INVARIANT LocalsVanish
-INVARIANT AssignThenLookup
-PROPERTY GReadOnlyNeverChanges
-PROPERTY GReadOnlyVisible
+PROPERTY ReadOnlyNeverChanges
+PROPERTY ReadOnlyVisible
